@@ -220,42 +220,206 @@ end Karp.Sched
 namespace Karp.Sched
 open Karp.Req Karp.Scn
 
-/-! ### New NodeClaims: `fits` / `compatible` / `filterInstanceTypesByRequirements` -/
+/-! ### Resource lists (`corev1.ResourceList`: a map resource name ↦ quantity, as an association list)
 
+Quantities are integers in a fixed unit per resource name (cpu: milli-cores, memory: Mi, everything else: a count).
+A missing key reads as the zero quantity, as a Go map of `resource.Quantity` does. -/
+
+abbrev ResList := List (String × Int)
+
+def ResList.get (r : ResList) (k : String) : Int := (r.lookup k).getD 0
+def ResList.hasKey (r : ResList) (k : String) : Bool := (r.lookup k).isSome
+
+/-- `resources.Fits(candidate, total)`: a negative entry of `total` never fits; every requested quantity must be
+    within `total[name]` (zero when `total` lacks the resource) -/
+def resFits (cand total : ResList) : Bool :=
+  total.all (fun p => decide (0 ≤ p.2)) && cand.all (fun p => decide (p.2 ≤ total.get p.1))
+
+/-- `resources.Merge(a, b)` / `MergeInto`: per-resource sums over the union of the keys -/
+def resMerge (a b : ResList) : ResList :=
+  a.map (fun p => (p.1, p.2 + b.get p.1)) ++ b.filter (fun p => !a.hasKey p.1)
+
+/-- `lo.Assign(base, over)`: `over` replaces existing keys and adds new ones -/
+def resAssign (base over : ResList) : ResList :=
+  base.map (fun p => (p.1, (over.lookup p.1).getD p.2)) ++ over.filter (fun p => !base.hasKey p.1)
+
+/-- `resources.Subtract(lhs, rhs)`: only the keys of `lhs` -/
+def resSubtract (lhs rhs : ResList) : ResList := lhs.map (fun p => (p.1, p.2 - rhs.get p.1))
+
+/-! ### New NodeClaims: instance types, offerings and allocatable groups (`pkg/cloudprovider/types.go`) -/
+
+/-- an offering as the scheduler sees it inside an allocatable group -/
 structure OfferingM where
   reqs : Reqs
   available : Bool
 
+/-- `cloudprovider.Offering`: `capOverride = []` is "no CapacityOverride" (`len == 0`); `ovhOverride = none` is a nil
+    `OverheadOverride`, `some t` a non-nil one whose `Total()` is `t` -/
+structure OfferingRaw where
+  reqs : Reqs
+  available : Bool
+  capOverride : ResList := []
+  ovhOverride : Option ResList := none
+
+/-- `cloudprovider.AllocatableOfferings`: one allocatable and the available offerings that produce it -/
+structure AllocGroup where
+  alloc : ResList
+  offerings : List OfferingM
+
+/-- an instance type after `precompute`: `AllocatableOfferingsList()`, base group first -/
 structure ITM where
   name : String
   reqs : Reqs
-  allocCPU : Int
-  allocMem : Int
-  allocPods : Int
-  offerings : List OfferingM     -- one allocatable group (no capacity overrides)
+  groups : List AllocGroup
+
+/-- `cloudprovider.InstanceType` before `precompute` (`overhead` = `Overhead.Total()`; no hugepage resources) -/
+structure ITRaw where
+  name : String
+  reqs : Reqs
+  capacity : ResList
+  overhead : ResList
+  offerings : List OfferingRaw
+
+/-- `computeAllocatable(capacityOverride, overheadOverride)` -/
+def computeAlloc (it : ITRaw) (capOverride : ResList) (ovhOverride : Option ResList) : ResList :=
+  let capacity := resAssign it.capacity capOverride
+  let overhead := match ovhOverride with | some t => resAssign it.overhead t | none => it.overhead
+  resSubtract capacity overhead
+
+/-- the allocatable a launch through offering `o` has -/
+def allocFor (it : ITRaw) (o : OfferingRaw) : ResList := computeAlloc it o.capOverride o.ovhOverride
+
+abbrev OverrideKey := ResList × Option ResList
+def overrideKey (o : OfferingRaw) : OverrideKey := (o.capOverride, o.ovhOverride)
+/-- the base group's key: no capacity override and a nil overhead override -/
+def baseKey : OverrideKey := ([], none)
+
+/-- distinct elements in order of first appearance -/
+def dedup [DecidableEq α] : List α → List α
+  | [] => []
+  | a :: as => a :: (dedup as).filter (fun b => decide (b ≠ a))
+
+def OfferingRaw.toM (o : OfferingRaw) : OfferingM := { reqs := o.reqs, available := o.available }
+
+/-- `precompute` / `groupOfferingsByOverride`: the AVAILABLE offerings grouped by their (CapacityOverride,
+    OverheadOverride) pair in order of first appearance, the base group (no overrides) always first — also when it is
+    empty; each group's allocatable is computed from its override pair.  (Go keys the groups by the `%v` rendering of
+    the pair; offerings with equal override contents that render differently end up in two groups with the same
+    allocatable, which no caller can tell apart from one merged group.) -/
+def allocGroups (it : ITRaw) : List AllocGroup :=
+  let av := it.offerings.filter (·.available)
+  (dedup (baseKey :: av.map overrideKey)).map (fun k =>
+    { alloc := computeAlloc it k.1 k.2,
+      offerings := (av.filter (fun o => decide (overrideKey o = k))).map OfferingRaw.toM })
+
+def ITRaw.toITM (it : ITRaw) : ITM := { name := it.name, reqs := it.reqs, groups := allocGroups it }
+
+/-! ### `compatible` / `fits` / `filterInstanceTypesByRequirements` (nodeclaim.go) -/
 
 /-- `compatible(it, requirements)` = `it.Requirements.Intersects(requirements) == nil` -/
 def itCompatible (it : ITM) (R : Reqs) : Bool := it.reqs.intersects R
 
-/-- `fits(it, requests, requirements)`: (resource fit ∧ some available offering compatible, has some offering) -/
-def itFits (it : ITM) (cpu mem pods : Int) (R : Reqs) (wellKnown : List String) : Bool × Bool :=
-  let hasOffering := (it.offerings.filter (·.available)).any (fun o => R.compatible o.reqs wellKnown)
-  (hasOffering && fits cpu mem pods it.allocCPU it.allocMem it.allocPods, hasOffering)
+/-- `requirements.IsCompatible(of.Requirements, AllowUndefinedWellKnownLabels)` for some offering of the group -/
+def groupHasOffering (g : AllocGroup) (R : Reqs) (wellKnown : List String) : Bool :=
+  g.offerings.any (fun o => R.compatible o.reqs wellKnown)
 
-/-- one daemon-overhead group: the instance types sharing a daemon set, its overhead and the host ports it uses -/
+/-- the loop of `fits`: groups in order; a group with a compatible offering sets `hasOffering` and returns
+    `(true, true)` at once when the requests also fit THAT group's allocatable; otherwise `(false, hasOffering)` -/
+def fitsLoop (req : ResList) (R : Reqs) (wellKnown : List String) : List AllocGroup → Bool → Bool × Bool
+  | [], has => (false, has)
+  | g :: gs, has =>
+    if groupHasOffering g R wellKnown then
+      if resFits req g.alloc then (true, true) else fitsLoop req R wellKnown gs true
+    else fitsLoop req R wellKnown gs has
+
+/-- `fits(it, requests, requirements)` = `(itFits, hasOffering)` -/
+def itFits (it : ITM) (req : ResList) (R : Reqs) (wellKnown : List String) : Bool × Bool :=
+  fitsLoop req R wellKnown it.groups false
+
+/-- `scheduling.GetHostPorts(pod)`: container ports without a host port are skipped -/
+def hostPortsOf (containerPorts : List HostPort) : List HostPort := containerPorts.filter (fun p => p.port != 0)
+
+/-- one daemon-overhead group: the instance types sharing a set of daemons, the daemons' summed requests and the
+    `HostPortUsage` (owner pod ↦ host ports) of the group -/
 structure Group where
   its : List String
-  dCPU : Int
-  dMem : Int
-  dPods : Int
-  ports : List HostPort
+  overhead : ResList
+  usage : List (String × List HostPort)
 
-/-- `filterInstanceTypesByRequirements` (minValues handled separately): the surviving instance types -/
-def filterITs (options : List ITM) (groups : List Group) (R : Reqs) (podPorts : List HostPort)
-    (cpu mem pods : Int) (wellKnown : List String) : List ITM :=
+/-- the entries `HostPortUsage.Conflicts(pod, …)` compares with: those reserved by OTHER pods -/
+def Group.portsOfOthers (g : Group) (podKey : String) : List HostPort :=
+  (g.usage.filter (fun e => e.1 != podKey)).flatMap (·.2)
+
+/-- the (daemon group, instance type) pairs the filter loop evaluates, in loop order: groups whose host ports clash
+    with the pod's are skipped, then the group's instance types that are still eligible (Go: pointer membership in
+    the set of the NodeClaim's remaining options; here: the option of that name) -/
+def filterCandidates (options : List ITM) (groups : List Group) (podKey : String) (podPorts : List HostPort) :
+    List (Group × ITM) :=
   groups.flatMap (fun g =>
-    if !portsFree g.ports podPorts then [] else
-    (options.filter (fun it => g.its.contains it.name)).filter (fun it =>
-      itCompatible it R && (itFits it (cpu + g.dCPU) (mem + g.dMem) (pods + g.dPods) R wellKnown).1))
+    if !portsFree (g.portsOfOthers podKey) podPorts then [] else
+    (g.its.filterMap (fun n => options.find? (fun it => it.name == n))).map (fun it => (g, it)))
+
+/-- the three criteria of one pair: `(itCompat, itFits, itHasOffering)` with the group's daemon overhead added to the
+    requests -/
+def criteria (R : Reqs) (total : ResList) (wellKnown : List String) (c : Group × ITM) : Bool × Bool × Bool :=
+  (itCompatible c.2 R, itFits c.2 (resMerge total c.1.overhead) R wellKnown)
+
+def meetsAll (v : Bool × Bool × Bool) : Bool := v.1 && v.2.1 && v.2.2
+
+/-- `filterInstanceTypesByRequirements` before the minValues tail: the surviving instance types -/
+def filterITs (options : List ITM) (groups : List Group) (R : Reqs) (podKey : String) (podPorts : List HostPort)
+    (total : ResList) (wellKnown : List String) : List ITM :=
+  ((filterCandidates options groups podKey podPorts).filter (fun c => meetsAll (criteria R total wellKnown c))).map (·.2)
+
+/-- the accumulators of `InstanceTypeFilterError` -/
+structure FilterFlags where
+  requirementsMet : Bool
+  fits : Bool
+  hasOffering : Bool
+  requirementsAndFits : Bool
+  requirementsAndOffering : Bool
+  fitsAndOffering : Bool
+deriving Repr, DecidableEq
+
+def filterFlags (options : List ITM) (groups : List Group) (R : Reqs) (podKey : String) (podPorts : List HostPort)
+    (total : ResList) (wellKnown : List String) : FilterFlags :=
+  let vs := (filterCandidates options groups podKey podPorts).map (criteria R total wellKnown)
+  { requirementsMet := vs.any (·.1), fits := vs.any (·.2.1), hasOffering := vs.any (·.2.2),
+    requirementsAndFits := vs.any (fun v => v.1 && v.2.1 && !v.2.2),
+    requirementsAndOffering := vs.any (fun v => v.1 && v.2.2 && !v.2.1),
+    fitsAndOffering := vs.any (fun v => v.2.1 && v.2.2 && !v.1) }
+
+/-- `Requirements.HasMinValues` -/
+def hasMinValues (R : Reqs) : Bool := R.any (fun p => p.2.minValues.isSome)
+
+/-- `InstanceTypes.SatisfiesMinValues(requirements)`: the keys whose minValues is not reached by the number of distinct
+    values the instance types' requirements list for the key, with that number (none for an empty list: the Go loop
+    body never runs) -/
+def minValuesUnsat (remaining : List ITM) (R : Reqs) : List (String × Nat) :=
+  if remaining.isEmpty then [] else
+  R.filterMap (fun p =>
+    match p.2.minValues with
+    | none => none
+    | some mv =>
+      let n := card (remaining.flatMap (fun it => (it.reqs.get p.1).values))
+      if (n : Int) < mv then some (p.1, n) else none)
+
+structure FilterOut where
+  remaining : List ITM
+  unsat : List (String × Nat)
+  /-- `none` = nil error; `some (flags, minValuesIncompatibleErr != nil)` -/
+  err : Option (FilterFlags × Bool)
+
+/-- `filterInstanceTypesByRequirements` with the minValues tail: under the strict policy a violated minValues empties
+    the result; under the relaxing policy the violated keys are only reported -/
+def filterResult (options : List ITM) (groups : List Group) (R : Reqs) (podKey : String) (podPorts : List HostPort)
+    (total : ResList) (wellKnown : List String) (relaxMinValues : Bool) : FilterOut :=
+  let rem := filterITs options groups R podKey podPorts total wellKnown
+  let unsat := if hasMinValues R then minValuesUnsat rem R else []
+  let mvErr := !unsat.isEmpty && !relaxMinValues
+  let rem' := if mvErr then [] else rem
+  if rem'.isEmpty then
+    { remaining := [], unsat := unsat, err := some (filterFlags options groups R podKey podPorts total wellKnown, mvErr) }
+  else { remaining := rem', unsat := unsat, err := none }
 
 end Karp.Sched
